@@ -3,6 +3,7 @@ import PMV.Lemmas.ReduceSort
 import PMV.Lemmas.ReduceArr
 import PMV.Lemmas.ReduceAxis
 import PMV.Lemmas.Bcast
+import PMV.Lemmas.ReduceBcast
 /-
   C13 — reductions and ordering operations see only unmasked elements.
   Property theorems.  Core Lean; no Mathlib.  Helper developments: PMV/Lemmas/Reduce*.lean.
@@ -1192,6 +1193,23 @@ theorem maximum2_indices_valid (s t out : Shape) (i : Index) (h : bcastAll [s, t
     (hv : Valid out i) : Valid s (bidx s i) ∧ Valid t (bidx t i) := by
   rw [bcastAll_pair] at h
   exact ⟨bidx_valid h hv, bidx_valid_right h hv⟩
+
+/-- any number of operands: a valid index of the result projects onto a valid index of every operand,
+    so `maximum_arr_spec` reads each operand inside its own bounds -/
+theorem maximum_indices_valid (step : List (Cell Int) → Option (Cell Int)) (args : List (Arr (Cell Int)))
+    (r : Arr (Cell Int)) (h : maximumArr step args = .ok r) (i : Index) (hv : Valid r.shape i) :
+    ∀ a ∈ args, Valid a.shape (bidx a.shape i) := by
+  unfold maximumArr at h
+  cases args with
+  | nil => cases h
+  | cons a0 as =>
+    simp only at h
+    split at h
+    · cases h
+    · rename_i out hout
+      injection h with h; subst h
+      intro a ha
+      exact bcastAll_bidx_valid _ out i hout hv a.shape (List.mem_map.2 ⟨a, ha, rfl⟩)
 
 example : bcastAll [[2, 1], [3], []] = some [2, 3] := by decide
 example : bcastAll [[2], [3]] = none := by decide
